@@ -379,6 +379,16 @@ def _text(rng):
         j = rng.choice([" - ", "-", " to ", " bis ", " until ", " und "])
         pre = rng.choice(["", "", "from ", "von ", "between ", "tomorrow ", "12.12.2020 "])
         return pre + ck() + j + ck()
+    if r < 0.64:
+        # a duration next to a date interval (the "3 days 15-18 Nov" consistency rules), with
+        # ordinary and absurd amounts
+        d1, d2 = rng.choice(["15.11.2020", "15.", "1.1.2020", "28.02.", "nov 15", "31.12.2019"]), \
+            rng.choice(["18.11.2020", "18.", "3.1.2020", "2.3.", "nov 18", "2.1.2020"])
+        n = rng.choice([1, 2, 3, 30, 400, 4000000, 99999999999])
+        u = rng.choice(["days", "nights", "tage", "weeks", "months", "nächte"])
+        iv = "%s %s %s" % (d1, rng.choice(["-", "bis", "to"]), d2)
+        return rng.choice(["%d %s %s" % (n, u, iv), "%s %d %s" % (iv, n, u),
+                           "%s für %d %s" % (iv, n, u), "%s for %d %s" % (iv, n, u)])
     if r < 0.66:
         # stacked part-of-day modifiers
         k = rng.randint(2, 5)
